@@ -35,6 +35,14 @@ class P(Prop):
                 out.append(K.kernel_case("Poly%d::derivative" % k, [self.coeff(rng) for _ in range(k + 1)], cls="poly"))
             for _ in range(max(1, per // 3)):
                 out.append(K.kernel_case("Segment<Poly%d>::derivative" % k, [self.coeff(rng) for _ in range(k + 2)], cls="segment"))
+            if k >= 2:
+                # every lane just below ITS overflow threshold: i*c_i is finite, (i+1)*c_i (or any larger multiple formed on the way) is not
+                for _ in range(max(2, per // 3)):
+                    cs = [rng.uniform(-2, 2)] + [rng.choice([1.0, -1.0]) * rng.uniform(0.88, 0.999) * 1.7976931348623157e308 / float(i) for i in range(1, k + 1)]
+                    for i in range(1, k + 1):
+                        if rng.random() < 0.3:
+                            cs[i] = rng.choice([0.0, rng.uniform(-3, 3)])
+                    out.append(K.kernel_case("Poly%d::derivative" % k, cs, cls="poly/near_overflow"))
         for _ in range(60 if tier == "quick" else 800):
             ty = rng.choice(G.POLYS)
             n = rng.randint(1, 12)
